@@ -72,6 +72,9 @@ class BlockOrdering:
         after_block: Optional[gtirb.ByteBlock],
         insert_blocks: Iterable[gtirb.ByteBlock],
     ):
+        # The blocks are walked twice, so a one-shot iterable has to be
+        # materialized first.
+        insert_blocks = tuple(insert_blocks)
         for block in insert_blocks:
             if block in self.__order:
                 raise ValueError(f"{block} is already ordered")
